@@ -302,6 +302,20 @@ def adapt(kind, ncomp, explicit, has_type, twin_first=False, second=False):
     return h
 
 
+def string_case(s):
+    """concrete: a simulator announcing the version STRING s (no configured version) through the real extract_version and
+    init_and_get_adapter; used to replay counterexamples of the CrossHair side engine (vk.xcheck.crosshair_c15) without CrossHair"""
+    def h(eng):
+        from vk.xcheck import c15_contracts as C
+        if not C.wellformed(s):
+            return ('malformed', {'nontrivial': False})
+        got, exp = C.classify(s), C.expected(s)
+        if got != exp:
+            eng.alarm('C15.string', f'a simulator announcing api_version {s!r} is treated as {got!r}, the statement says {exp!r}', {'fp': ['string', s]})
+        return (got, {'nontrivial': True})
+    return h
+
+
 def jobs(tier):
     out = []
     q = tier == 'quick'
